@@ -17,15 +17,24 @@ Print Assumptions C02_no_stall.
    its identifier and DUP=1, for unconditional retransmission when the client reconnects ... *)
 Theorem C02_redelivery_queued : forall now r w,
   alive w = true -> p_unack w = [] ->
-  qrel (open r (close now w)) = map enc_unack (qrel w) ++ map (fun x => enc_unack (snd x)) (pubout w).
+  qrel (open r (close now w)) = map (fun x => enc_unack (snd x)) (rev (pubout w)) ++ map enc_unack (qrel w).
 Proof. exact redelivery_queued. Qed.
 Print Assumptions C02_redelivery_queued.
+(* ([pubout] holds the latest transmission first: [rev] is the order of transmission - what was sent first is sent
+   again first; what still waited for its own retransmission when the connection ended comes after that) *)
 
 (* ... and that queue is served first, whatever the quota *)
 Theorem C02_retransmit_first : forall now w p r w' o oc,
   alive w = true -> qrel w = p :: r -> pop_round now w = (oc, w', o) -> exists o', o = p :: o'.
 Proof. exact retransmit_first. Qed.
 Print Assumptions C02_retransmit_first.
+
+(* ... one per round, and while anything waits there nothing that has never been transmitted leaves its queue *)
+Theorem C02_retransmit_before_new : forall now w p r w' o oc,
+  alive w = true -> qrel w = p :: r -> pop_round now w = (oc, w', o) ->
+  q12 w' = q12 w /\ qrel w' = r /\ oc = Fine.
+Proof. exact retransmit_before_new. Qed.
+Print Assumptions C02_retransmit_before_new.
 
 (* messages queued but not yet transmitted survive the disconnect in persistence (unless expired) *)
 Theorem C02_queued_persisted : forall now w p, alive w = true -> In p (q12 w) -> expired now p = false ->
